@@ -32,7 +32,7 @@ func openClientSut(s *sut, opTimeout time.Duration) (*sut, error) {
 		port := l.Addr().(*net.TCPAddr).Port
 		l.Close()
 		ep := fmt.Sprintf("opc.tcp://127.0.0.1:%d", port)
-		ack := *uacp.DefaultServerACK
+		ack := uacp.Acknowledge{ReceiveBufSize: 8192, SendBufSize: 8192, MaxChunkCount: 256, MaxMessageSize: 1 << 22}
 		ln, err := uacp.Listen(ctx, ep, &ack)
 		if err != nil {
 			lastErr = err
@@ -136,7 +136,7 @@ const leniency = 250 * time.Millisecond
 const slack = 1000 * time.Millisecond
 
 func runTiming(cs Case) outcome {
-	class := fmt.Sprintf("timing/%s/timeout=%dms", cs.Level, cs.TimeoutMs)
+	class := fmt.Sprintf("timing/%s/timeout=%dms/ctxdl=%v", cs.Level, cs.TimeoutMs, cs.CtxDL)
 	to := time.Duration(cs.TimeoutMs) * time.Millisecond
 	s, err := openSut("uasc", 20*time.Second, uint32(5000+cs.N), "None", "None")
 	if err != nil {
@@ -149,7 +149,13 @@ func runTiming(cs Case) outcome {
 		time.Sleep(to + leniency)
 		refDone <- time.Since(t0)
 	}()
-	r := s.call(context.Background(), 101, to)
+	cctx := context.Background()
+	if cs.CtxDL {
+		var ccancel context.CancelFunc
+		cctx, ccancel = context.WithTimeout(cctx, 4*to+time.Minute)
+		defer ccancel()
+	}
+	r := s.call(cctx, 101, to)
 	ref := <-refDone
 	if ref > to+leniency+slack {
 		return outcome{status: "inconclusive", detail: fmt.Sprintf("machine too loaded: reference timer of %s took %s", to+leniency, ref)}
@@ -259,16 +265,17 @@ type traceEv struct {
 }
 
 func runStress(cs Case) outcome {
-	class := fmt.Sprintf("stress/%s/callers=%d/rounds=%d/stride=%d/wrap=%v", cs.Level, cs.Callers, cs.Rounds, cs.Stride, cs.Wrap)
+	class := fmt.Sprintf("stress/%s/callers=%d/rounds=%d/stride=%d/wrap=%v/big=%v", cs.Level, cs.Callers, cs.Rounds, cs.Stride, cs.Wrap, cs.Big)
 	seed := uint32(100000 + vfgo.Rand(int64(cs.N)).Intn(1<<24))
 	if cs.Wrap {
 		seed = ^uint32(0) - uint32(cs.Callers*cs.Rounds/2)
 	}
-	s, err := openSut(cs.Level, 60*time.Second, seed, "None", "None")
+	s, err := openSut(cs.Level, 60*time.Second, seed, "None", "None", cs.Big)
 	if err != nil {
 		return outcome{status: "inconclusive", detail: "open: " + err.Error()}
 	}
 	defer s.closeFn()
+	var kept []callRes // every delivered response is kept and compared again at the end
 	rnd := vfgo.Rand(int64(cs.N) + 77)
 	var trace []traceEv
 	var tmu sync.Mutex
@@ -343,6 +350,7 @@ func runStress(cs Case) outcome {
 				return outcome{status: "violation", class: class, key: "outcome-" + r.out + "-expected-ok",
 					detail: fmt.Sprintf("round %d caller %d: answered call returned %q (%s)", round, c, r.out, r.err)}
 			}
+			kept = append(kept, r)
 			if r.gotTag != tagOf(c, round) || r.gotMid != expMid[c] {
 				return outcome{status: "violation", class: class, key: "response-of-another-request-delivered",
 					detail: fmt.Sprintf("round %d caller %d: got tag=%d mid=%d, own response is tag=%d mid=%d", round, c, r.gotTag, r.gotMid, tagOf(c, round), expMid[c])}
@@ -374,5 +382,11 @@ func runStress(cs Case) outcome {
 	if n := uasc.VerifPendingHandlers(s.sc); n != 0 {
 		return outcome{status: "violation", class: class, key: "pending-slot-not-released", detail: fmt.Sprintf("%d slots left", n)}
 	}
-	return outcome{status: "ok", class: class, obs: map[string]any{"calls": cs.Callers*cs.Rounds + 1, "responses": mid}}
+	for _, r := range kept {
+		if !payloadIntact(r, s.paySize) {
+			return outcome{status: "violation", class: class, key: "response-payload-changed-after-delivery",
+				detail: fmt.Sprintf("the %d byte ByteString of the response tag=%d mid=%d no longer equals what the server sent after later messages were received", len(r.payload), r.gotTag, r.gotMid)}
+		}
+	}
+	return outcome{status: "ok", class: class, obs: map[string]any{"calls": cs.Callers*cs.Rounds + 1, "responses": mid, "payload_bytes": s.paySize}}
 }
